@@ -64,7 +64,13 @@ var (
 )
 
 func c04Duck() (*sql.DB, error) {
-	c04DuckOnce.Do(func() { c04DuckDB, c04DuckErr = duck.Open() })
+	c04DuckOnce.Do(func() {
+		c04DuckDB, c04DuckErr = duck.Open()
+		if c04DuckErr == nil {
+			// tiny files: one thread is plenty and avoids a worker pool per core
+			_, c04DuckErr = c04DuckDB.Exec("SET threads=1")
+		}
+	})
 	return c04DuckDB, c04DuckErr
 }
 
@@ -182,6 +188,7 @@ type c04Gen struct {
 	t         *rapid.T
 	pinned    map[string]string // '_' column -> type, while the type-flip finding is open
 	hostile   bool              // sequence used a hostile column name
+	unknown   bool              // current request has a shape whose stored rows cannot be modelled
 	schemaVar map[string]map[string]bool
 }
 
@@ -304,8 +311,11 @@ func (g *c04Gen) msgpackItem(db, m string, poison, lenMismatch bool) (mpMap, []c
 			if verifkit.Excluded(kfC04EmptyColumn) {
 				verifkit.CountExcluded(kfC04EmptyColumn)
 			} else {
+				// must be rejected (400) or, inside an array/batch, the item is
+				// skipped: either way the stored rows cannot be modelled
 				name = ""
 				g.hostile = true
+				g.unknown = true
 			}
 		}
 		if seen[name] {
@@ -379,6 +389,7 @@ func (g *c04Gen) msgpackColumnar() *c04Req {
 		poison = false
 	}
 	lenMismatch := rapid.IntRange(0, 11).Draw(t, "lenMismatch") == 0
+	g.unknown = false
 	var items []any
 	for i := 0; i < nitems; i++ {
 		m := rapid.SampledFrom(c04Measurements).Draw(t, "m")
@@ -399,7 +410,7 @@ func (g *c04Gen) msgpackColumnar() *c04Req {
 		r.Body = mpEncode(nil, mpMap{{"batch", items}})
 	}
 	r.Desc = fmt.Sprintf("msgpack %s items=%d badM=%v poison=%v lenMismatch=%v", shape, nitems, badM, poison, lenMismatch)
-	if poison || badM || lenMismatch {
+	if poison || badM || lenMismatch || g.unknown {
 		// a rejection is the only acceptable outcome we can model; if the server
 		// accepts it anyway we only know the row delta
 		r.Known = false
@@ -1271,8 +1282,37 @@ func c04IsRecoveredPanic(stderr string) bool {
 	return strings.Contains(stderr, "panic: ") || strings.Contains(stderr, "fatal error: ")
 }
 
-// c04RunSeq executes the sequence against a fresh child. It returns nil when the
-// property held.
+// The child process is a container that is reused for up to c04MaxServed server
+// instances (exec of the large test binary dominates otherwise); every sequence
+// still gets its own fresh server instance, and a process that saw any failure
+// is discarded.
+const c04MaxServed = 25
+
+var c04Pooled *c04Child
+
+func c04AcquireChild(cfg c04ServerCfg) (*c04Child, error) {
+	if c := c04Pooled; c != nil {
+		c04Pooled = nil
+		if !c.dead && c.served < c04MaxServed {
+			if err := c.reset(cfg); err == nil {
+				return c, nil
+			}
+		}
+		c.stop()
+	}
+	return c04StartChild(cfg)
+}
+
+func c04ReleaseChild(c *c04Child, clean bool) {
+	if clean && !c.dead {
+		c04Pooled = c
+		return
+	}
+	c.stop()
+}
+
+// c04RunSeq executes the sequence against a fresh server instance. It returns nil
+// when the property held.
 func c04RunSeq(s *c04Seq) *c04Failure {
 	root, err := os.MkdirTemp("", "c04-*")
 	if err != nil {
@@ -1281,11 +1321,12 @@ func c04RunSeq(s *c04Seq) *c04Failure {
 	defer os.RemoveAll(root)
 	cfg := s.Cfg
 	cfg.Root = root
-	child, err := c04StartChild(cfg)
+	child, err := c04AcquireChild(cfg)
 	if err != nil {
 		return &c04Failure{"harness", "start child: " + err.Error()}
 	}
-	defer child.stop()
+	clean := false
+	defer func() { c04ReleaseChild(child, clean) }()
 
 	dropUnderscore := verifkit.Excluded(kfC04UnderscoreDrop)
 	var acceptedTotal int64
@@ -1345,11 +1386,10 @@ func c04RunSeq(s *c04Seq) *c04Failure {
 	if died {
 		return &c04Failure{"process-crash", "server process died during Close(): " + diag}
 	}
-	if err := child.cmd.Wait(); err != nil {
-		child.dead = true
-		return &c04Failure{"process-crash", fmt.Sprintf("server process exit: %v: %s", err, c04PanicHead(child.stderrNew()))}
+	if se := child.stderrNew(); c04IsRecoveredPanic(se) {
+		return &c04Failure{"handler-panic", "panic output after Close(): " + c04PanicHead(se)}
 	}
-	child.dead = true
+	clean = true
 
 	stored, total, fail := c04ReadStore(root, dropUnderscore)
 	if fail != nil {
@@ -1503,8 +1543,6 @@ func c04Play(cfg c04ServerCfg, reqs []*c04Req, flush bool) (*c04PlayResult, erro
 		res.crashed, res.crash = true, diag
 		return res, nil
 	}
-	_ = child.cmd.Wait()
-	child.dead = true
 	st, total, f := c04ReadStore(root, false)
 	if f != nil {
 		return res, fmt.Errorf("%s: %s", f.Class, f.Detail)
